@@ -49,6 +49,11 @@ class Prop:
         """key identifying a distinct non-trivial case, or None when the case is trivial"""
         return json.dumps(strip_meta(case), sort_keys=True)
 
+    def hyp_term(self, case, hres):
+        """Coq term (list Z: [hypotheses hold, proved bound respected]) deciding the hypotheses of the property's binary64
+        theorems on this input, or None"""
+        return None
+
     def search_cases(self, rng):
         """extra cases for the failing-input search (thorough volume by default)"""
         return self.cases(rng, "thorough")
@@ -202,7 +207,7 @@ def check_property(prop, tier, seed, replay=None):
                 broken.append("props/%s.v does not match its pinned statement hash" % prop.MODULE)
         # ---- proof obligations
         targets = (["props/%s.vo" % prop.MODULE] if prop.MODULE else []) + list(prop.EXTRA_TARGETS) + \
-                  ["model/Run.vo", "model/Extra.vo", "gen/Kernels.vo"]
+                  ["model/Run.vo", "model/Extra.vo", "model/Hyp.vo", "gen/Kernels.vo"]
         ok_make, mlog = C.coq_make(targets)
         checker_cmd = "cd coq && make -j%d %s" % (C.NCPU, " ".join(targets))
         obligations = len(prop.THEOREMS) + n_gen
@@ -282,6 +287,34 @@ def check_property(prop, tier, seed, replay=None):
                 for c, h, m in zip(cases, res["hres"], res["mres"]):
                     print("REPLAY case=%s\n  implementation=%s\n  model=%s\n  oracle=%s" % (
                         json.dumps(strip_meta(c))[:600], h.get("r"), m, prop.oracle(c, h)))
+    # ---- on how many generated inputs do the hypotheses of the binary64 theorems hold (decided inside Coq, lib/SafeDec.v)
+    hyp = None
+    if hb_ok and not replay and ok_make:
+        hterms = []
+        for tag, cases in streams:
+            for c in cases or []:
+                try:
+                    t = prop.hyp_term(c, {})
+                except Exception:
+                    t = None
+                if t:
+                    hterms.append(t)
+        lim = 32 if tier == "quick" else 320
+        if len(hterms) > lim:
+            step = len(hterms) / float(lim)
+            hterms = [hterms[int(k * step)] for k in range(lim)]
+        if hterms:
+            hres_, hlog = C.run_coq_cases(hterms, "%s_hyp" % pid)
+            got = [r for r in hres_ if r]
+            hyp = dict(checked=len(hterms), evaluated=len(got), hypotheses_hold=sum(1 for r in got if r[0] == 1))
+            if any(len(r) > 1 for r in got):
+                hyp["bound_respected"] = sum(1 for r in got if len(r) > 1 and r[0] == 1 and r[1] == 1)
+                if any(len(r) > 1 and r[0] == 1 and r[1] == 0 for r in got):
+                    broken.append("a proved error bound is violated on an input satisfying its hypotheses (model / proof chain inconsistent)")
+            if hlog:
+                notes.append("hypothesis decision failed to run on some inputs: " + hlog[-300:])
+            if hyp["hypotheses_hold"] == 0:
+                notes.append("the hypotheses of the binary64 theorems held on none of the sampled inputs")
     stats["mismatches"] = len(mismatches)
     if mismatches:
         c, h, d = mismatches[0]
@@ -397,7 +430,7 @@ def check_property(prop, tier, seed, replay=None):
             rule=prop.RULE, samples=samples[:4] if samples else [dict(obligations=prop.THEOREMS)],
             correspondence_mismatches=stats["mismatches"], input_distribution=dist,
             theorems=prop.THEOREMS, generated_obligations=n_gen,
-            source_hashes=tr.get("hashes", {}), broken=broken, notes=notes,
+            source_hashes=tr.get("hashes", {}), broken=broken, notes=notes, hypothesis_coverage=hyp,
         ),
         assumptions=list(prop.ASSUMPTIONS),
         wall_s=round(wall, 2), violations=violations,
